@@ -1,21 +1,23 @@
 #!/bin/bash
 # usage: run_replay.sh <repo-relative package dir> <test file> <-run regexp>
 # Injects the test file into the package with `go test -overlay` (hiding the package's own, non-compiling _test.go files)
-# and runs it against the real code in /repo. Exit 0 iff the replay test passes (= the failing behaviour is reproduced).
+# and runs it against the real code in /repo (or in $GOVC_REPO: the tree a run with -repo is looking at). Exit 0 iff the replay
+# test passes (= the failing behaviour is reproduced).
 set -u
 export GOFLAGS=-mod=mod GOPROXY=off GOSUMDB=off GOTOOLCHAIN=local
 PKG="$1"; FILE="$2"; RUN="$3"
+REPO="${GOVC_REPO:-/repo}"
 TMP=$(mktemp -d)
 trap 'rm -rf "$TMP"' EXIT
-python3 - "$PKG" "$FILE" "$TMP/ov.json" <<'PY'
+python3 - "$PKG" "$FILE" "$TMP/ov.json" "$REPO" <<'PY'
 import json,sys,os,glob
-pkg,f,out=sys.argv[1:4]
+pkg,f,out,repo=sys.argv[1:5]
 rep={}
-for t in glob.glob(os.path.join('/repo',pkg,'*_test.go')):
+for t in glob.glob(os.path.join(repo,pkg,'*_test.go')):
     rep[t]=""
-rep[os.path.join('/repo',pkg,'zz_replay_'+os.path.basename(f))]=os.path.abspath(f)
+rep[os.path.join(repo,pkg,'zz_replay_'+os.path.basename(f))]=os.path.abspath(f)
 if pkg=='app':
-    rep[os.path.join('/repo',pkg,'zz_replay_harness_test.go')]='/verif/replay/harness/harness_test.go' 
+    rep[os.path.join(repo,pkg,'zz_replay_harness_test.go')]='/verif/replay/harness/harness_test.go' 
 json.dump({"Replace":rep},open(out,'w'))
 PY
-cd /repo && ulimit -v 8000000 && go test -overlay "$TMP/ov.json" -vet=off -count=1 -timeout 120s -run "$RUN" -v "./$PKG" 2>&1
+cd "$REPO" && ulimit -v 8000000 && go test -overlay "$TMP/ov.json" -vet=off -count=1 -timeout 120s -run "$RUN" -v "./$PKG" 2>&1
